@@ -540,13 +540,14 @@ pub fn run(mut run: Run) -> ! {
     let depth = if quick { 1 } else { 2 };
     run.rule = "generator-AST models (objective family and constraint family of C02/C01 over bounded declarations, every row named) are expressed through: the fluent builder via operator overloads and helper functions (three operand spellings: Expr op Expr only; the most specific overload per operand pair over i32/f64 literals, Var handles, bool and helper functions over Var items; f64-only literals with Expr op &Expr) with EVERY call order (objective at each of the k+1 positions, every split of the constraints between with and with_all, satisfy explicit or defaulted, with and without two declared-but-unused variables), source text with inline constants, source text with the constants supplied through the API, PipeRunner presets (Compiler>PreModel>Model>LinearModel>MILP and >Auto), RoocSolver one-shot, plus compiled-in vars!/constraint!/expr! spellings; linear models are compared row for row (modulo unused builder variables), verdicts and optimal values across doors, pipe stage outputs with direct calls, and values read back through handles, names and eval with the reference semantics; distinct = source texts; non-trivial = compiles".into();
     run.assume("identical expression trees must give identical linear models; the builder keeps unused variables, which are projected away; tolerance 1e-6 on optimal values and read-back");
-    let n2 = c02::family_size_pub(depth, quick);
+    // the quick tier uses the full declaration / constant menus at context depth 1
+    let n2 = c02::family_size_pub(depth, false);
     let stride2 = 1;
-    run.family("O-objective-models", n2 / stride2, move |i, l| check_case(&c02::family_pub(i * stride2, depth, quick), l));
-    let na = family_a_size(depth, quick);
+    run.family("O-objective-models", n2 / stride2, move |i, l| check_case(&c02::family_pub(i * stride2, depth, false), l));
+    let na = family_a_size(depth, false);
     let stride = 1;
     run.family("A-constraint-models", na / stride, move |i, l| {
-        let mut c = family_a(i * stride, depth, quick);
+        let mut c = family_a(i * stride, depth, false);
         let ok = c.model.vars.iter().all(|v| {
             let (lo, hi) = v.1.bounds();
             lo.is_finite() && hi.is_finite()
